@@ -232,7 +232,9 @@ type crlDoc struct {
 func mkCRL(p string, nRevoked int) *x509.RevocationList {
 	crl := &x509.RevocationList{Issuer: pkix.Name{SerialNumber: vp.Atom(p + "_issuer_dn")}, NextUpdate: symTime(p + "_nextupdate")}
 	for i := 0; i < nRevoked; i++ {
-		crl.RevokedCertificates = append(crl.RevokedCertificates, pkix.RevokedCertificate{SerialNumber: newSerial(p + "_revoked" + string(rune('0'+i)))})
+		// the entry's date is any instant (before or after the verification time): a listed serial is revoked
+		crl.RevokedCertificates = append(crl.RevokedCertificates, pkix.RevokedCertificate{SerialNumber: newSerial(p + "_revoked" + string(rune('0'+i))),
+			RevocationTime: symTime(p + "_revoked" + string(rune('0'+i)) + "_at")})
 	}
 	vp.GhostSet(crl, "id", vp.U64(p+"_crlid"))
 	return crl
